@@ -71,8 +71,24 @@ long sys_write(int fd, const void *buf, unsigned long n)
   crash_point("write");
   return (long)n;
 }
+/* ---- reopen: the index file as a sequence of g_nslots records; the watched slot g_wslot holds (g_wseq, g_wprec) and is the FIRST record with that number ---- */
+long g_nslots, g_slot; long g_wslot; unsigned g_wseq; struct FIX8_Prec g_wprec; _Bool g_index_read_fails;
+int g_open_calls;
+int sys_open(const char *path, int flags, ...) { int c = g_open_calls++; return nondet_bool() ? -1 : (c % 2 == 0 ? FOD : IOD); }   /* initialise opens the data file first, then the index file */
+void iprec_ctor0(struct FIX8_IPrec *r) { r->_seq = 0; r->_prec._offset = 0; r->_prec._size = 0; }
 long sys_read(int fd, void *buf, unsigned long n)
 {
+  if (fd == IOD) {
+    /* index replay */
+    __CPROVER_assert(n == (unsigned long)RECSZ, "model: the index file is read one whole record at a time");
+    if (g_index_read_fails && nondet_bool()) return -1;
+    if (g_slot >= g_nslots) return 0;
+    struct FIX8_IPrec *r = (struct FIX8_IPrec *)buf;
+    if (g_slot == g_wslot) { r->_seq = g_wseq; r->_prec = g_wprec; }
+    else { r->_seq = nondet_uint(); r->_prec._offset = nondet_long(); r->_prec._size = nondet_int(); __CPROVER_assume(g_slot > g_wslot || r->_seq != g_wseq); }
+    g_slot++;
+    return RECSZ;
+  }
   if (g_syscalls_fail && nondet_bool()) return -1;
   __CPROVER_assert(fd == FOD, "model: these operations read the data file only");
   __CPROVER_assert(n <= __CPROVER_OBJECT_SIZE(buf) - __CPROVER_POINTER_OFFSET(buf), "C26.file.read_buffer_is_large_enough_for_the_record");
@@ -133,6 +149,7 @@ unsigned ses_get_next_send_seq(const void *s) { return nondet_uint(); }
 void pair_us_ctor_int_cstr(struct pair_us *p, int *k, const char *v) { p->first = (unsigned)*k; p->second.data = v; p->second.size = 0; }
 void pair_us_ctor_uint_str(struct pair_us *p, const unsigned *k, const struct strm *v) { p->first = *k; p->second = *v; }
 _Bool map_empty(const struct map_m *m) { return g_empty; }
+unsigned long map_size(const struct map_m *m) { return g_empty ? 0 : 1 + (nondet_ulong() % 1000000); }
 struct iter_m map_rbegin(const struct map_m *m) { struct iter_m it; it.end = g_empty; it.key = g_maxkey; it.isw = 0; return it; }
 char g_strbuf[1000001];
 void str_fill_ctor(struct strm *s, unsigned long n, char c, void *alloc) { __CPROVER_assert(n <= 1000000, "model: strings of at most 1 MB"); s->data = g_strbuf; s->size = n; }   /* std::string(n, c): storage for n bytes (one shared 1 MB object in this model) */
@@ -232,6 +249,21 @@ void h_range(void)
   __CPROVER_assert(g_rctx_begin == from && g_rctx_end == to, "C26.file.range.context_carries_the_requested_range");
   VACUITY_PROBE();
 }
+/* reopen: initialise()'s replay of the index file rebuilds the in-memory index: the first record of a number wins */
+void h_reopen(void)
+{
+  struct FIX8_FilePersister fp; mk(&fp);
+  g_empty = 1; g_wpresent = 0; g_maxkey = 0;                                   /* a fresh object: the in-memory index is empty */
+  g_open_calls = 0; g_nslots = nondet_long(); __CPROVER_assume(g_nslots >= 0 && g_nslots <= 1000000); g_slot = 0; g_index_read_fails = nondet_bool();
+  g_wslot = nondet_long(); __CPROVER_assume(g_wslot >= 0); g_wseq = nondet_uint(); g_wprec._offset = nondet_long(); g_wprec._size = nondet_int();
+  g_wkey = g_wseq; g_wentry.first = g_wseq;
+  _Bool r = fper_replay_index(&fp, 0, 0, 0);
+  _Bool complete = g_slot >= g_nslots;                                         /* the replay reached the end of the index file */
+  __CPROVER_assert(!(complete && g_wslot < g_nslots) || (g_wpresent && g_wentry.second._offset == g_wprec._offset && g_wentry.second._size == g_wprec._size), "C27.reopen.every_index_record_on_disk_is_in_the_rebuilt_index_first_record_of_a_number_wins");
+  __CPROVER_assert(!(g_wslot >= g_nslots) || !g_wpresent, "C27.reopen.no_number_appears_in_the_index_without_a_record_on_disk");
+  __CPROVER_assert(g_idx_writes == 0 && g_dat_writes == 0, "C27.reopen.replay_writes_nothing");
+  VACUITY_PROBE();
+}
 void h_nearest(void)
 {
   struct FIX8_FilePersister fp; mk(&fp);
@@ -251,6 +283,13 @@ void h_last(void)
   VACUITY_PROBE();
 }
 '''
+
+def _is_replay_block(n):
+    """the branch of FilePersister::initialise that opens existing files and replays the index: the compound statement that directly contains the `while (true)` reading loop"""
+    if n.get('kind') != 'CompoundStmt':
+        return False
+    return any(isinstance(c, dict) and c.get('kind') == 'WhileStmt' for c in n.get('inner', []))
+
 
 def _split(text):
     """one copy of each multi-property harness per property: assertion lines are kept only when their label starts with that property's id; PROP_ID is that id as a number"""
@@ -281,7 +320,7 @@ UNIT = dict(
     emit=dict(
         pod=[r'FIX8::Prec', r'std::pair<std::_Rb_tree_iterator<.*>, bool>', r'std::_Rb_tree_(const_)?iterator<.*>', r'std::reverse_iterator<.*>'],
         bases={'FIX8::FilePersister': 'FIX8::Persister'},
-        default_args={'str_fill_ctor': {2: '0'}},
+        default_args={'str_fill_ctor': {2: '0'}, 'sys_open': {2: '0'}},
         type_alias=[(r'std::basic_string<char>::reference', 'char &')],
         constants={'SEEK_SET': '0', 'SEEK_END': '2', 'FIX8_MAX_MSG_LENGTH': '8192'},
         type_map=[(r'(const )?(std::basic_string<char>|std::string|FIX8::f8String)', 'struct strm'), (MAP, 'struct map_m'), (r'FIX8::FilePersister::Index', 'struct map_m'),
@@ -298,7 +337,8 @@ UNIT = dict(
         calls={MAP + '::insert': dict(c='map_insert', sig='std::pair<iterator, bool> (std::pair<const unsigned int, FIX8::Prec> &&)'),
                MAP + '::find': dict(c='map_find', sig='iterator (const unsigned int &)'), MAP + '::end': 'map_end', MAP + '::empty': 'map_empty', MAP + '::rbegin': 'map_rbegin',
                'operator==': 'iter_eq', 'operator!=': 'iter_ne',
-               'lseek': 'sys_lseek', 'write': 'sys_write', 'read': 'sys_read',
+               'lseek': 'sys_lseek', 'write': 'sys_write', 'read': 'sys_read', 'open': 'sys_open', 'std::basic_string<char>::c_str': 'str_data',
+               'std::map<unsigned int, FIX8::Prec>::size': 'map_size',
                'std::basic_string<char>::size': 'str_size', 'std::basic_string<char>::data': 'str_data', 'std::basic_string<char>::assign': 'str_assign', 'std::basic_string<char>::swap': dict(c='str_swap', sig='void (std::basic_string<char> &)'), 'std::basic_string<char>::operator[]': dict(c='str_at', sig='char &(unsigned long)'),
                'std::basic_string<char>::basic_string': 'str_fill_ctor',
                'std::pair<const unsigned int, FIX8::Prec>::pair|void (int &&, FIX8::Prec &)': 'pair_up_ctor_int', 'std::pair<const unsigned int, FIX8::Prec>::pair': 'pair_up_ctor',
@@ -307,7 +347,7 @@ UNIT = dict(
                'FIX8::FilePersister::get_last_seqnum': dict(c='fper_get_last', sig='unsigned int (unsigned int &) const'), 'FIX8::FilePersister::find_nearest_highest_seqnum': 'fper_nearest',
                'std::pair<const unsigned int, const std::basic_string<char>>::pair|void (int &&, const char (&)[1])': 'pair_us_ctor_int_cstr',
                'std::pair<const unsigned int, const std::basic_string<char>>::pair': 'pair_us_ctor_uint_str',
-               'FIX8::IPrec::IPrec': 'iprec_ctor', 'FIX8::Prec::Prec': 'prec_ctor'}),
+               'FIX8::IPrec::IPrec|void ()': 'iprec_ctor0', 'FIX8::IPrec::IPrec': 'iprec_ctor', 'FIX8::Prec::Prec': 'prec_ctor'}),
     prelude=PRELUDE,
     force_fields={'FIX8::FilePersister': [('_index', MAP), ('_fod', 'int'), ('_iod', 'int')], 'FIX8::Persister': [('_opened', 'bool')]},
     functions=[
@@ -318,6 +358,9 @@ UNIT = dict(
         dict(q='FIX8::FilePersister::get', sig='bool (unsigned int &, unsigned int &) const', cname='fper_get_ctrl'),
         dict(q='FIX8::FilePersister::get', sig='bool (const unsigned int, FIX8::f8String &) const', cname='fper_get_msg'),
         dict(q='FIX8::FilePersister::get_last_seqnum', sig=None, cname='fper_get_last'),
+        dict(q='FIX8::FilePersister::initialise', sig='bool (const FIX8::f8String &, const FIX8::f8String &, bool)', cname='fper_replay_index', select_node=_is_replay_block,
+             loops={0: dict(assigns='iprec, g_slot, g_wpresent, g_wentry, g_empty, g_maxkey, g_cursor, g_cursor_set',
+                            invariants=[('inv.replay', 'g_slot >= 0 && g_slot <= g_nslots && STORE_OK && g_wkey == g_wseq && (g_slot > g_wslot ? (g_wpresent && g_wentry.second._offset == g_wprec._offset && g_wentry.second._size == g_wprec._size) : !g_wpresent)')])}),
         dict(q='FIX8::Session::RetransmissionContext::RetransmissionContext', sig=None, cname='rctx_ctor', self_type='FIX8::Session::RetransmissionContext *'),
         dict(q='FIX8::FilePersister::find_nearest_highest_seqnum', sig=None, cname='fper_nearest',
              loops={0: dict(assigns='startseqnum, g_cursor, g_cursor_set, g_found_valid, g_found_key', invariants=[('inv.scan', 'requested <= startseqnum && startseqnum <= last + 1u && (!(g_wpresent && requested <= g_wkey && g_wkey < startseqnum && g_wkey != 0) )')],
@@ -338,6 +381,7 @@ UNIT = dict(
         dict(name='put_ctrl_c27', harness='h_put_ctrl_c27', properties=['C27'], solvers=['cadical', 'z3'], timeout=dict(quick=300, thorough=900), floor=1, level='proved-modular', object_bits=10),
         dict(name='get_msg', harness='h_get_msg', properties=['C26'], solvers=['cadical', 'z3'], timeout=dict(quick=300, thorough=900), floor=3, level='proved-modular', object_bits=10),
         dict(name='range', harness='h_range', loop_contracts=True, properties=['C26', 'C18'], solvers=['z3', 'kissat', 'cadical'], timeout=dict(quick=900, thorough=1800), floor=5, level='proved-modular', object_bits=10),
+        dict(name='reopen', harness='h_reopen', loop_contracts=True, properties=['C27'], solvers=['z3', 'cadical'], timeout=dict(quick=600, thorough=1800), floor=3, level='proved-modular', object_bits=10),
         dict(name='nearest', harness='h_nearest', loop_contracts=True, properties=['C26'], solvers=['cadical', 'z3'], timeout=dict(quick=300, thorough=900), floor=2, level='proved-modular', object_bits=10),
         dict(name='last', harness='h_last', properties=['C26'], solvers=['cadical', 'z3'], timeout=dict(quick=300, thorough=900), floor=1, level='proved-modular', object_bits=10),
     ],
